@@ -115,7 +115,7 @@ FiredState(S, atoms) ==
 TStep ==
     /\ Line.k = "call" /\ Line.op = "step" /\ ~skip
     /\ LET r0   == IF case.exec = "pml" THEN StepUntilQuiescent(C, Cur, <<>>, 120)
-                   ELSE IF Coarse THEN StepUntilEffective(C, Cur, <<>>, 60)
+                   ELSE IF Coarse THEN StepUntilEffective(C, Cur, <<>>, 400)
                    ELSE StepOf(C, FiredState(Cur, Line.atoms))
            r    == IF Coarse THEN [r0 EXCEPT !.ret = GencRet(@)] ELSE r0
            exp  == Project(case.exec, r.m.atoms)
